@@ -2017,6 +2017,7 @@ func (s *Server) Serve(ln net.Listener) error {
 		c, err := acceptConn(s, ln, &lastPerIPErrorTime)
 		if err != nil {
 			wp.Stop()
+			vhook("srv.serve.ret", s, ln, 0, 0)
 			if err == io.EOF {
 				return nil
 			}
@@ -2081,6 +2082,7 @@ func (s *Server) ShutdownWithContext(ctx context.Context) (err error) {
 	s.mu.Lock()
 	defer s.mu.Unlock()
 
+	vhook("sd.stop", s, nil, 0, 0)
 	s.stop.Store(1)
 	defer s.stop.Store(0)
 
@@ -2089,11 +2091,13 @@ func (s *Server) ShutdownWithContext(ctx context.Context) (err error) {
 	}
 
 	lnerr := s.closeListenersLocked()
+	vhook("sd.lnclosed", s, nil, 0, 0)
 
 	if s.done != nil && !s.doneClosed {
 		close(s.done)
 		s.doneClosed = true
 	}
+	vhook("sd.done", s, nil, 0, 0)
 
 	// Closing the listener will make Serve() call Stop on the worker pool.
 	// Setting .stop to 1 will make serveConn() break out of its loop.
@@ -2105,11 +2109,13 @@ func (s *Server) ShutdownWithContext(ctx context.Context) (err error) {
 		s.closeIdleConns()
 
 		if open := s.open.Load(); open == 0 {
+			vhook("sd.return", s, nil, 0, 0)
 			// There may be a pending request to call ctx.Done(). Therefore, we only set it to nil when open == 0.
 			s.done = nil
 			s.doneClosed = false
 			return lnerr
 		}
+		vhook("sd.wait", s, nil, 0, 0)
 		// This is not an optimal solution but using a sync.WaitGroup
 		// here causes data races as it's hard to prevent Add() to be called
 		// while Wait() is waiting.
@@ -2401,6 +2407,7 @@ func (s *Server) serveConnCounted(c net.Conn, countConcurrency bool) error {
 	// Same as net/http.Server:
 	// https://github.com/golang/go/blob/85d7bab91d9a3ed1f76842e4328973ea75efef54/src/net/http/server.go#L2834-L2836
 	idleConnTime.Store(connTime.Add(time.Second * 5).Unix())
+	vhook("srv.conn.reg", s, c, 0, 0)
 	s.idleConnsMu.Unlock()
 
 	serverName := s.getServerName()
@@ -2483,10 +2490,12 @@ func (s *Server) serveConnCounted(c net.Conn, countConcurrency bool) error {
 		if err == nil && idleConnTime.Swap(0) == idleConnClosing {
 			// closeIdleConns has claimed this connection as idle and is closing
 			// it: do not start serving a request on it.
+			vhook("srv.claimed", s, c, int(connRequestNum), 0)
 			err = io.EOF
 		}
 
 		if err == nil {
+			vhook("srv.firstbyte", s, c, int(connRequestNum), 0)
 			s.setState(c, StateActive)
 
 			if s.ReadTimeout > 0 {
@@ -2679,6 +2688,7 @@ func (s *Server) serveConnCounted(c net.Conn, countConcurrency bool) error {
 		if continueReadingRequest {
 			vhook("srv.h.start", ctx, c, int(connRequestNum), 0)
 			s.Handler(ctx)
+			vhook("srv.h.end", ctx, c, int(connRequestNum), 0)
 		}
 
 		// If the handler left a part of the streamed request body unread, the rest
@@ -2754,10 +2764,13 @@ func (s *Server) serveConnCounted(c net.Conn, countConcurrency bool) error {
 			if br == nil || br.Buffered() == 0 || connectionClose || (s.ReduceMemoryUsage && hijackHandler == nil) {
 				err = bw.Flush()
 				if err != nil {
+					vhook("srv.flush.fail", s, c, int(connRequestNum), 0)
 					break
 				}
+				vhook("srv.flushed", s, c, int(connRequestNum), 0)
 			}
 			if connectionClose {
+				vhook("srv.cc.break", s, c, int(connRequestNum), 0)
 				break
 			}
 			if s.ReduceMemoryUsage && hijackHandler == nil {
@@ -2801,11 +2814,13 @@ func (s *Server) serveConnCounted(c net.Conn, countConcurrency bool) error {
 		if br == nil || br.Buffered() == 0 {
 			idleConnTime.Store(ctx.time.Unix())
 		}
+		vhook("srv.idle", s, c, int(connRequestNum), 0)
 		s.setState(c, StateIdle)
 		ctx.Request.Reset()
 		ctx.Response.Reset()
 
 		if s.stop.Load() == 1 {
+			vhook("srv.stop.seen", s, c, int(connRequestNum), 0)
 			err = nil
 			if bw != nil {
 				// The response may still be buffered if the next request was pipelined.
@@ -2832,6 +2847,7 @@ func (s *Server) serveConnCounted(c net.Conn, countConcurrency bool) error {
 		idleConnTimePool.Put(ic)
 		delete(s.idleConns, c)
 	}
+	vhook("srv.conn.unreg", s, c, 0, 0)
 	s.idleConnsMu.Unlock()
 
 	return err
@@ -3226,18 +3242,22 @@ const idleConnClosing int64 = -1
 
 func (s *Server) closeIdleConns() {
 	s.idleConnsMu.Lock()
+	vhook("sd.scan.begin", s, nil, len(s.idleConns), 0)
 	now := time.Now().Unix()
 	for c, ict := range s.idleConns {
 		t := ict.Load()
+		vhook("sd.idle.test", s, c, int(t), int(now))
 		// Claim the connection before closing it: its serve loop may be
 		// turning it active at this very moment.
 		if t != 0 && now-t >= 0 && ict.CompareAndSwap(t, idleConnClosing) {
+			vhook("sd.idle.close", s, c, 0, 0)
 			_ = c.Close()
 			// Don't recycle ict: the connection's own goroutine still holds it
 			// and stores into it, so only that goroutine may return it.
 			delete(s.idleConns, c)
 		}
 	}
+	vhook("sd.scan.end", s, nil, len(s.idleConns), 0)
 	s.idleConnsMu.Unlock()
 }
 
